@@ -82,7 +82,7 @@ theorem range_positions (c : List κ) (lo hi : κ) (hne : c ≠ []) :
         exact pySlice_some_some (by omega) (by omega)
 
 /-- C05's range clause: whenever "hi beyond the end" really means that the position nearest hi
-    is the last one (true on ascending and on descending axes, see `beyond_is_last_*`), the
+    is the last one (true on ascending and on descending axes, proved below as `beyond_is_last_ascending` / `beyond_is_last_descending`; `range_spec_ascending` / `range_spec_descending` are the clause with that premise discharged), the
     selection is a non-empty contiguous run between the positions nearest lo and nearest hi
     (inclusive) and contains every position strictly between them, for either order of lo, hi -/
 theorem range_spec (c : List κ) (lo hi : κ) (hne : c ≠ [])
@@ -242,5 +242,120 @@ theorem setitem_spec {α : Type} [Inhabited α] {d r : Data κ α} {sels : List 
     simp only
     rw [Arr.get_ofFn _ hin]
     rfl
+
+theorem getLast?_getD_eq (c : List κ) (hne : c ≠ []) : c.getLast?.getD default = c.getD (c.length - 1) default := by
+  rw [List.getLast?_eq_getElem?, List.getD_eq_getElem?_getD]
+
+/-- on an ASCENDING axis, with a distance that shrinks as the coordinate approaches the target from below (|t − x| does),
+    "hi beyond the end" means that the position nearest hi is the last one — the hypothesis of `range_spec` -/
+theorem beyond_is_last_ascending (c : List κ) (hi : κ) (hne : c ≠ []) (hs : c.Pairwise (· < ·))
+    (hd : ∀ x y, x < y → y < hi → dist hi y < dist hi x) (hb : beyondEnd ltB hi c = true) :
+    nearest dist ltB hi c = c.length - 1 := by
+  obtain ⟨_, hk, hmin, _⟩ := float_spec dist c hi hne
+  by_contra hne'
+  have hlen : 0 < c.length := List.length_pos_iff.2 hne
+  have hk' : nearest dist ltB hi c < c.length - 1 := by omega
+  set k := nearest dist ltB hi c with hkdef
+  set L := c.length - 1 with hL
+  have hLlt : L < c.length := by omega
+  have hkl : c[k] < c[L] := List.pairwise_iff_getElem.1 hs k L hk hLlt hk'
+  -- the last coordinate is below hi
+  have hlast : c[L] < hi := by
+    unfold beyondEnd at hb
+    simp only at hb
+    have hge : ¬ (c.getLast?.getD default < c.headD default) := by
+      rw [getLast?_getD_eq c hne, List.getD_eq_getElem?_getD, List.getElem?_eq_getElem hLlt]
+      cases c with
+      | nil => exact absurd rfl hne
+      | cons x xs =>
+        simp only [List.headD_cons, Option.getD_some, not_lt]
+        by_cases h0 : L = 0
+        · simp [h0]
+        · have := List.pairwise_iff_getElem.1 hs 0 L (by simp) hLlt (by omega)
+          exact le_of_lt (by simpa using this)
+    have : ltB (c.getLast?.getD default) (c.headD default) = false := by
+      simp only [ltB, decide_eq_false_iff_not]; exact hge
+    rw [this] at hb
+    simp only [Bool.false_eq_true, if_false] at hb
+    rw [getLast?_getD_eq c hne, List.getD_eq_getElem?_getD, List.getElem?_eq_getElem hLlt] at hb
+    simpa [ltB] using hb
+  have h1 := hd c[k] c[L] hkl hlast
+  have h2 := hmin c[L] (List.getElem_mem hLlt)
+  rw [List.getD_eq_getElem?_getD, List.getElem?_eq_getElem hk, Option.getD_some] at h2
+  exact absurd h1 (not_lt.2 h2)
+
+
+/-- the same on a DESCENDING axis, with a distance that shrinks as the coordinate approaches the target from above -/
+theorem beyond_is_last_descending (c : List κ) (hi : κ) (hne : c ≠ []) (hs : c.Pairwise (· > ·))
+    (hd : ∀ x y, y < x → hi < y → dist hi y < dist hi x) (hb : beyondEnd ltB hi c = true) :
+    nearest dist ltB hi c = c.length - 1 := by
+  obtain ⟨_, hk, hmin, _⟩ := float_spec dist c hi hne
+  by_contra hne'
+  have hlen : 0 < c.length := List.length_pos_iff.2 hne
+  have hk' : nearest dist ltB hi c < c.length - 1 := by omega
+  set k := nearest dist ltB hi c with hkdef
+  set L := c.length - 1 with hL
+  have hLlt : L < c.length := by omega
+  have hL0 : 0 < L := by omega
+  have hkl : c[L] < c[k] := List.pairwise_iff_getElem.1 hs k L hk hLlt hk'
+  have hlast : hi < c[L] := by
+    unfold beyondEnd at hb
+    simp only at hb
+    have hlt : c.getLast?.getD default < c.headD default := by
+      rw [getLast?_getD_eq c hne, List.getD_eq_getElem?_getD, List.getElem?_eq_getElem hLlt]
+      cases c with
+      | nil => exact absurd rfl hne
+      | cons x xs =>
+        simp only [List.headD_cons, Option.getD_some]
+        have := List.pairwise_iff_getElem.1 hs 0 L (by simp) hLlt hL0
+        simpa using this
+    have : ltB (c.getLast?.getD default) (c.headD default) = true := by
+      simp only [ltB, decide_eq_true_eq]; exact hlt
+    rw [this] at hb
+    simp only [if_true] at hb
+    rw [getLast?_getD_eq c hne, List.getD_eq_getElem?_getD, List.getElem?_eq_getElem hLlt] at hb
+    simpa [ltB] using hb
+  have h1 := hd c[k] c[L] hkl hlast
+  have h2 := hmin c[L] (List.getElem_mem hLlt)
+  rw [List.getD_eq_getElem?_getD, List.getElem?_eq_getElem hk, Option.getD_some] at h2
+  exact absurd h1 (not_lt.2 h2)
+
+/-- **C05's range clause on ascending axes**, with no side condition left but the shape of the distance -/
+theorem range_spec_ascending (c : List κ) (lo hi : κ) (hne : c ≠ []) (hs : c.Pairwise (· < ·))
+    (hd : ∀ x y, x < y → y < hi → dist hi y < dist hi x) :
+    let i := nearest dist ltB lo c
+    let j := nearest dist ltB hi c
+    let P := selPositions dist ltB c (.range lo hi)
+    P ≠ [] ∧ (∃ p₀ len, P = List.range' p₀ len) ∧ (∀ p ∈ P, min i j ≤ p ∧ p ≤ max i j) ∧
+    (∀ p, min i j < p → p < max i j → p ∈ P) :=
+  range_spec dist c lo hi hne (beyond_is_last_ascending dist c hi hne hs hd)
+
+/-- **… and on descending axes** -/
+theorem range_spec_descending (c : List κ) (lo hi : κ) (hne : c ≠ []) (hs : c.Pairwise (· > ·))
+    (hd : ∀ x y, y < x → hi < y → dist hi y < dist hi x) :
+    let i := nearest dist ltB lo c
+    let j := nearest dist ltB hi c
+    let P := selPositions dist ltB c (.range lo hi)
+    P ≠ [] ∧ (∃ p₀ len, P = List.range' p₀ len) ∧ (∀ p ∈ P, min i j ≤ p ∧ p ≤ max i j) ∧
+    (∀ p, min i j < p → p < max i j → p ∈ P) :=
+  range_spec dist c lo hi hne (beyond_is_last_descending dist c hi hne hs hd)
+
+/-- the distance the implementation uses, |t − x| over the rationals, has both shapes -/
+theorem abs_dist_shapes (t : ℚ) :
+    (∀ x y : ℚ, x < y → y < t → |t - y| < |t - x|) ∧ (∀ x y : ℚ, y < x → t < y → |t - y| < |t - x|) := by
+  constructor
+  · intro x y hxy hyt
+    rw [abs_of_pos (by linarith), abs_of_pos (by linarith)]; linarith
+  · intro x y hyx hty
+    rw [abs_of_neg (by linarith), abs_of_neg (by linarith)]; linarith
+
+
+/-- non-vacuity: a concrete ascending axis, a target beyond its end, and |t − x| meet every premise of `range_spec_ascending` -/
+example : ([0, 1/2, 1, 3] : List ℚ).Pairwise (· < ·) ∧ beyondEnd ltB (5 : ℚ) [0, 1/2, 1, 3] = true ∧
+    (∀ x y : ℚ, x < y → y < 5 → |5 - y| < |5 - x|) :=
+  ⟨by decide +kernel, by decide +kernel, (abs_dist_shapes 5).1⟩
+example : ([3, 1, 1/2, 0] : List ℚ).Pairwise (· > ·) ∧ beyondEnd ltB (-2 : ℚ) [3, 1, 1/2, 0] = true ∧
+    (∀ x y : ℚ, y < x → -2 < y → |-2 - y| < |-2 - x|) :=
+  ⟨by decide +kernel, by decide +kernel, (abs_dist_shapes (-2)).2⟩
 
 end Dnp.C05
